@@ -999,6 +999,7 @@ impl Dispatch {
         }
     }
 
+    #[cfg(not(feature = "portable-atomic"))]
     pub(crate) fn verif_unregistered_arc(collector: Arc<dyn Collect + Send + Sync>) -> Self {
         Self {
             collector: Kind::Scoped(collector),
